@@ -140,8 +140,15 @@ def check(db, rep):
         r3.violation('DeleteDuplicatesInternal', '%s:%d' % (ddi.file, ddi.line), 'an erased duplicate is not both recorded in the translation and rewritten in the remaining definitions')
     sv = [n for n in bs.calls() if n.get('cs') == 'ccl::EntityTranslation::SubstituteValues']
     idx = sorted(bs.strip(bs.stmts[c['args'][0]]).get('cv') for n in sv for c in bs.calls(bs.stmts[n['obj']]) if (c.get('cs') or '').endswith('::at') and c.get('args'))
-    if len(sv) == 2 and idx == [0, 1]:
-        r3.ok('BinarySynthes::Execute', 'both operand translations pass through the equation translation', '%s:%d' % (bs.file, bs.line))
+    every_path = True
+    exits_ok = success_exits(bs)
+    for n in sv:
+        if paths_avoiding(bs, [bs.graph()[1]], [bs.position_of(n)], exits_ok):
+            every_path = False
+    if len(sv) == 2 and idx == [0, 1] and not every_path:
+        r3.violation('BinarySynthes::Execute', '%s:%d' % (bs.file, bs.line), 'an operand translation is passed through the equation translation on some paths only (e.g. not when the table is empty and duplicates were merged): it then maps constituents to erased ones')
+    elif len(sv) == 2 and idx == [0, 1]:
+        r3.ok('BinarySynthes::Execute', 'both operand translations pass through the equation translation on every successful path', '%s:%d' % (bs.file, bs.line))
     else:
         r3.violation('BinarySynthes::Execute', '%s:%d' % (bs.file, bs.line), 'the equation translation is applied to operand translations %s, it must be applied to both (0 and 1)' % idx)
 
@@ -182,3 +189,57 @@ def check(db, rep):
         r5.ok('MergeWith:translate', 'RSCore::Translate for every inserted copy', mw.loc(tr[0]))
     else:
         r5.violation('MergeWith:translate', '%s:%d' % (mw.file, mw.line), 'inserted copies are not all translated with the accumulated alias map')
+    _admissible_table(db, rep)
+
+
+def _admissible_table(db, rep):
+    """r6: BinarySynthes::ResetResult evaluated on every table of up to two pairs over {known, foreign} x {known, foreign}: the synthesis is correctly
+    defined iff every left side is a constituent of operand 1 AND every right side a constituent of operand 2 (and the pairs are equatable)"""
+    import itertools
+    from engine.evalmini import Interp, Obj, OutOfFragment, NOT_HANDLED
+    r6 = rep.rule('r6', 'ADMISSIBLE-TABLE: a synthesis table is accepted only if each pair names a constituent of operand 1 and one of operand 2 and the pairs are equatable', 1)
+    f = db.fn(OPS + 'BinarySynthes::ResetResult', required=False)
+    if f is None:
+        r6.broken('anchor vanished: BinarySynthes::ResetResult')
+        return
+    bad, cases = None, 0
+    try:
+        sides = [(1, 11), (1, 99), (99, 11), (99, 99), (2, 12)]      # uid 1,2 in operand 1; 11,12 in operand 2; 99 foreign
+        for k in (0, 1, 2):
+            for table in itertools.product(sides, repeat=k):
+                for equatable in (True, False):
+                    cases += 1
+                    this = Obj(equations=[Obj(first=a, second=b) for a, b in table], isCorrect=None, operand1=Obj(ids={1, 2}), operand2=Obj(ids={11, 12}), resultSchema=Obj())
+
+                    def on_call(it, fn, n, env, equatable=equatable):
+                        cs = n.get('cs') or ''
+                        last = cs.split('::')[-1]
+                        if last == 'PrecreateResult' or last == 'TranslateEquations':
+                            return None
+                        if last == 'Contains':
+                            if 'obj' in n:
+                                o = it.eval(fn, fn.stmts[n['obj']], env)
+                            else:
+                                # inside a generic lambda the object expression is only available as the base of the callee member expression
+                                me = [x for x in fn.walk(fn.stmts[n['c'][0]]) if x['k'] == 'MemberExpr' and x.get('member') in ('operand1', 'operand2')]
+                                if not me:
+                                    raise OutOfFragment('Contains on an unknown object at %s' % fn.loc(n))
+                                o = env['this'][me[0]['member']]
+                            v = it.eval(fn, fn.stmts[n['args'][0]], env)
+                            return v in o['ids']
+                        if last == 'IsEquatable':
+                            return equatable
+                        if last == 'Ops':
+                            return Obj()
+                        return NOT_HANDLED
+                    Interp(db, on_call=on_call).call(f, [], this)
+                    want = (all(a in (1, 2) and b in (11, 12) for a, b in table) and equatable) if table else True
+                    if bool(this['isCorrect']) != want and bad is None:
+                        bad = 'table %s (uids 1,2 belong to operand 1, 11,12 to operand 2, 99 to neither; pairs %s): accepted = %s' % (list(table), 'equatable' if equatable else 'not equatable', this['isCorrect'])
+    except OutOfFragment as e:
+        r6.broken('BinarySynthes::ResetResult outside the evaluable fragment: %s' % e)
+        return
+    if bad:
+        r6.violation('BinarySynthes::ResetResult', '%s:%d' % (f.file, f.line), bad)
+    else:
+        r6.ok('BinarySynthes::ResetResult', 'accepts exactly the admissible tables on %d cases' % cases, '%s:%d' % (f.file, f.line))
